@@ -3,7 +3,7 @@ import coreprop as cp
 import core
 import gen
 import lib
-from witnesses import WITNESSES
+from witnesses import WITNESSES, corpus_for
 
 PID = "C01"
 COQ_TARGETS = cp.COQ_TARGETS
@@ -40,8 +40,9 @@ def generate(ctx, n):
 
 
 def run(ctx):
-    n = 160 if ctx.quick else 2500
-    scns = generate(ctx, n)
+    n = 500 if ctx.quick else 6000
+    corpus = corpus_for(PID)
+    scns = [s for _, s in corpus] + generate(ctx, n)
     impls, models, mism, stats = cp.correspondence(ctx, scns, "Cases_C01")
     violations, distinct, oracle_checks, tagged = [], set(), 0, {}
     for scn, il, ml in zip(scns, impls, models):
